@@ -684,3 +684,64 @@ def h_toolbox_drop_pipe_valve(inp, body):
     pp.drop_pipes(net, [11])
     dangling = net.valve[(net.valve.et == "pi") & ~net.valve.element.isin(net.pipe.index)]
     return {"reproduced": len(dangling) > 0, "observed": {"valves referencing a missing pipe": dangling.element.tolist()}}
+
+
+def h_graph_pipe_valve(inp, body):
+    import pandapipes as pp
+    import pandapipes.topology as top
+    net = _full_net(pp, [0, 1, 2, 3, 4, 5, 6, 7], [10, 11, 12, 13, 14])
+    g = top.create_nxgraph(net)
+    phantom = sorted(int(n) for n in g.nodes() if n not in net.junction.index)
+    ve = [(int(a), int(b)) for a, b, k in g.edges(keys=True) if k[0] == "valve"]
+    return {"reproduced": bool(phantom) or len(ve) != 1, "observed": {"nodes that are no junctions": phantom, "valve edges": ve}}
+
+
+def h_graph_flow_return(inp, body):
+    """an island fed only through a heat consumer / active flow controller: supplied in the graph, not calculated by the solver"""
+    import pandapipes as pp
+    import pandapipes.topology as top
+    net = pp.create_empty_network(fluid="water")
+    j = pp.create_junctions(net, 4, 5., 330.)
+    pp.create_ext_grid(net, j[0], 5., 330.)
+    pp.create_pipe_from_parameters(net, j[0], j[1], 0.1, 100.)
+    if inp.get("table") == "flow_control":
+        pp.create_flow_control(net, j[1], j[2], 0.1, control_active=True)
+    else:
+        pp.create_heat_consumer(net, j[1], j[2], qext_w=1000., controlled_mdot_kg_per_s=0.1)
+    pp.create_pipe_from_parameters(net, j[2], j[3], 0.1, 100.)
+    pp.create_sink(net, j[3], 0.05)
+    uns = sorted(int(x) for x in top.unsupplied_junctions(net))
+    try:
+        pp.pipeflow(net)
+        nan = net.res_junction.index[net.res_junction.p_bar.isnull()].tolist()
+    except Exception as e:  # noqa
+        nan = "pipeflow raised %s" % type(e).__name__
+    return {"reproduced": uns != nan, "observed": {"unsupplied_junctions": uns, "junctions without pressure result": nan}}
+
+
+def h_graph_slacks(inp, body):
+    import pandapipes as pp
+    import pandapipes.topology as top
+    out = {}
+    # (a) an external grid of type 't' fixes no pressure
+    net = pp.create_empty_network(fluid="water")
+    j = pp.create_junctions(net, 4, 5., 330.)
+    pp.create_ext_grid(net, j[0], 5., 330., type="pt")
+    pp.create_pipe_from_parameters(net, j[0], j[1], 0.1, 100.)
+    pp.create_ext_grid(net, j[2], None, 330., type="t")
+    pp.create_pipe_from_parameters(net, j[2], j[3], 0.1, 100.)
+    uns = sorted(int(x) for x in top.unsupplied_junctions(net))
+    pp.pipeflow(net)
+    nan = net.res_junction.index[net.res_junction.p_bar.isnull()].tolist()
+    out["t-type ext_grid"] = {"unsupplied_junctions": uns, "junctions without pressure result": nan}
+    # (b) a circulation pump is the only pressure-fixing element
+    net = pp.create_empty_network(fluid="water")
+    j = pp.create_junctions(net, 3, 5., 330.)
+    pp.create_circ_pump_const_pressure(net, j[0], j[1], 5., 1., t_flow_k=330.)
+    pp.create_pipe_from_parameters(net, j[1], j[2], 0.1, 100.)
+    pp.create_pipe_from_parameters(net, j[2], j[0], 0.1, 100.)
+    uns2 = sorted(int(x) for x in top.unsupplied_junctions(net))
+    pp.pipeflow(net)
+    nan2 = net.res_junction.index[net.res_junction.p_bar.isnull()].tolist()
+    out["circulation pump only"] = {"unsupplied_junctions": uns2, "junctions without pressure result": nan2}
+    return {"reproduced": uns != nan or uns2 != nan2, "observed": out}
